@@ -3,9 +3,12 @@ package main
 import (
 	"context"
 	"fmt"
+	accountmanagerhandler "github.com/attestantio/dirk/services/api/grpc/handlers/accountmanager"
+	pb "github.com/wealdtech/eth2-signer-api/pb/v1"
 	"os"
 	"path/filepath"
 	"strings"
+	"time"
 
 	"github.com/attestantio/dirk/core"
 	"github.com/attestantio/dirk/services/checker"
@@ -189,6 +192,73 @@ func permServices(ctx context.Context, cf *commonFlags, rng *PRNG, idx map[strin
 			}
 		}
 		node.Close(ctx)
+	}
+	// creation of a DISTRIBUTED account (several participants: the generation runs on every instance of a
+	// cluster) is an operation like any other: without the Create account permission nothing is created anywhere
+	{
+		ids := []uint64{1, 2, 3}
+		perms := map[string][]*checker.Permissions{
+			"creator": {{Path: "Wallet 3", Operations: []string{"Create account"}}, {Path: "Wallet 1", Operations: []string{"Create account"}}},
+			"signer":  {{Path: "Wallet 3", Operations: []string{"Sign", "Access account"}}},
+			"denied":  {{Path: "Wallet 3", Operations: []string{"None"}}},
+			"anti":    {{Path: "Wallet 3", Operations: []string{"~Create account", "All"}}},
+			"later":   {{Path: "Wallet 3/Deny.*", Operations: []string{"None"}}, {Path: "Wallet 3", Operations: []string{"All"}}},
+		}
+		cl, err := NewClusterPerms(ctx, ids, 5*time.Second, perms)
+		if err != nil {
+			return nil, nil, 0, err
+		}
+		count := func() []int {
+			var out []int
+			for _, id := range ids {
+				accs, _ := cl.Nodes[id].Fetcher.FetchAccounts(ctx, "Wallet 3")
+				plain, _ := cl.Nodes[id].Fetcher.FetchAccounts(ctx, "Wallet 1")
+				out = append(out, len(accs)+len(plain))
+			}
+			return out
+		}
+		type attempt struct {
+			client, name string
+			allowed      bool
+		}
+		for ai, at := range []attempt{{"signer", "Wallet 3/dist a", false}, {"denied", "Wallet 3/dist b", false}, {"anti", "Wallet 3/dist c", false}, {"nobody", "Wallet 3/dist d", false}, {"", "Wallet 3/dist e", false},
+			{"later", "Wallet 3/Deny me", false}, {"later", "Wallet 3/dist f", true}, {"creator", "Wallet 3/dist g", true}, {"signer", "Wallet 3/dist h", false},
+			// one participant: a plain account of the plain wallet, by the same route
+			{"signer", "Wallet 1/single a", false}, {"nobody", "Wallet 1/single b", false}, {"creator", "Wallet 1/single c", true}, {"later", "Wallet 1/single d", false}} {
+			parts, thr := uint32(3), uint32(2)
+			if strings.HasPrefix(at.name, "Wallet 1/") {
+				parts, thr = 1, 1
+			}
+			before := count()
+			// through the gRPC handler object, as a client's request arrives (it hands the request to the process
+			// service itself, not to the account manager service)
+			nd := cl.Nodes[ids[ai%len(ids)]]
+			ah, herr := accountmanagerhandler.New(ctx, accountmanagerhandler.WithAccountManager(nd.AcctMgr), accountmanagerhandler.WithProcess(nd.Process))
+			if herr != nil {
+				return nil, nil, 0, herr
+			}
+			r := core.ResultFailed
+			res, gerr := ah.Generate(ctxWithClient(ctx, at.client, "10.0.0.1"), &pb.GenerateRequest{Account: at.name, Passphrase: []byte("pass"), SigningThreshold: thr, Participants: parts})
+			if gerr == nil && res.GetState() == pb.ResponseState_SUCCEEDED {
+				r = core.ResultSucceeded
+			} else if gerr == nil {
+				gerr = fmt.Errorf("%s %s", res.GetState(), res.GetMessage())
+			}
+			after := count()
+			grew := false
+			for i := range before {
+				grew = grew || after[i] != before[i]
+			}
+			stats["svc.manager.distributed-creations"]++
+			switch {
+			case !at.allowed && (r == core.ResultSucceeded || grew):
+				monFail = append(monFail, fmt.Sprintf("cluster %v, permissions of %q do not include Create account for it: Generate(%q, threshold %d, participants %d) = %s, accounts per instance before %v, after %v",
+					ids, at.client, at.name, thr, parts, r, before, after))
+			case at.allowed && r != core.ResultSucceeded:
+				monFail = append(monFail, fmt.Sprintf("cluster %v: %q may create this account, but Generate(%q, threshold %d, participants %d) = %s (%v)", ids, at.client, at.name, thr, parts, r, gerr))
+			}
+		}
+		cl.Close(ctx)
 	}
 	// the fixture's store now holds the created accounts; it is not reused
 	var b strings.Builder
